@@ -48,7 +48,7 @@ def run_batch(ctx, module, cfg, cases, observers, sigfn, negfn=None, chunk=30000
     for c in cases:
         buf.append(c)
         size += 4 * len(json.dumps(c[1])) + 200  # rough size of the recorded event
-        if len(buf) >= chunk or size > 12_000_000:
+        if len(buf) >= chunk or size > 24_000_000:
             flush()
             size = 0
     flush()
